@@ -28,9 +28,9 @@ __asm__(".text\n.globl sim_call_sysv\n.type sim_call_sysv,@function\nsim_call_sy
 static int64_t call_typed(void *addr, const std::string &ps, char rt, const int64_t *ia) {
   uint64_t iregs[6] = {0}, fregs[8] = {0}; std::vector<uint64_t> st; int ni = 0, nf = 0, ai = 0, di = 0;
   for (char c : ps) {
-    const char *bf = c == 'S' ? "q" : c == 'T' ? "qq" : c == 'P' ? "dd" : c == 'M' ? "qd" : c == 'N' ? "dq" : c == 'G' ? "qqq" : nullptr;  // by-value aggregates (prog/dsl.hpp)
+    const char *bf = c == 'S' ? "q" : c == 'T' ? "qq" : c == 'P' ? "dd" : c == 'M' ? "qd" : c == 'N' ? "dq" : c == 'G' ? "qqq" : c == 'Q' ? "d" : c == 'H' ? "qqqq" : nullptr;  // by-value aggregates (prog/dsl.hpp)
     if (bf) {
-      int64_t v = ia[ai++]; uint64_t w[3]; int n = 0, qi = 0, qd = 0;
+      int64_t v = ia[ai++]; uint64_t w[4]; int n = 0, qi = 0, qd = 0;
       for (; bf[n]; n++) { uint64_t raw = (uint64_t) v + (uint64_t) n; if (bf[n] == 'q') { w[n] = raw; qi++; } else { double x = (double) (raw & 0xffff); memcpy(&w[n], &x, 8); qd++; } }
       bool in_regs = n <= 2 && ni + qi <= 6 && nf + qd <= 8;   // every eightbyte needs a register of its class, else the whole aggregate goes to memory
       for (int j = 0; j < n; j++) { if (!in_regs) st.push_back(w[j]); else if (bf[j] == 'q') iregs[ni++] = w[j]; else fregs[nf++] = w[j]; }
